@@ -57,6 +57,8 @@ class SPuppet:
                 except CancelledError as e:
                     # cancellation delivered while the program sits between two operations
                     self.at_decision = False
+                    if self.world.shutdown:
+                        raise
                     self.held = e
                     self.outcome = ("exc", e)
                     self.idle_hits += 1
@@ -70,6 +72,8 @@ class SPuppet:
                     res = await cmd(self)
                     self.outcome = ("ok", res)
                 except BaseException as e:  # noqa: BLE001
+                    if self.world.shutdown and isinstance(e, CancelledError):
+                        raise
                     self.held = e
                     self.outcome = ("exc", e)
         finally:
@@ -81,6 +85,7 @@ class SWorld:
     """Real objects + id registries.  All ids are allocation indices (1-based), as in the model."""
 
     real = False
+    shutdown = False
 
     def __init__(self, loop=None):
         import anyio
